@@ -59,6 +59,8 @@ class Trace:
 
 class ExecutorHooks(Hooks):
     loop_bound = 1
+    # the configuration objects the executor reads (exe_conf, conf_values ...) do not change while it runs
+    stable_attributes = True
 
     def __init__(self, ix: Index, fo: Folder):
         self.ix = ix
